@@ -39,6 +39,10 @@ DRIVER_IMPORTS = ["CnfgenModel.Vars.GenGlue"]
 # objects that the translated code only constructs and sends commands to: (constructor arguments, log of commands)
 BUILDERS = {
     "DirectedGraph": {"ctor": [INT, ERASED], "command": "add_edge", "args": [INT, INT]},
+    # `G.parts()` of a fresh BipartiteGraph(L, R): the two ranges, from the constructor arguments
+    "BipartiteGraph": {"ctor": [INT, INT], "command": "add_edge", "args": [INT, INT],
+                       "observers": {"parts": ("(Py.Range.mk 1 (({c}).1.1 + 1), Py.Range.mk 1 (({c}).1.2 + 1))",
+                                               TTuple([RANGE, RANGE]))}},
 }
 
 ITEMS = [
@@ -134,4 +138,6 @@ ITEMS = [
     {"file": "cnfgen/graphs.py", "function": "dag_path", "property": "C15", "params": {"length": INT}},
     {"file": "cnfgen/graphs.py", "function": "dag_complete_binary_tree", "property": "C15", "params": {"height": INT}},
     {"file": "cnfgen/graphs.py", "function": "dag_pyramid", "property": "C15", "params": {"height": INT}},
+    {"file": "cnfgen/graphs.py", "function": "bipartite_shift", "property": "C15",
+     "params": {"N": INT, "M": INT, "pattern": TList(INT)}},
 ]
